@@ -3,6 +3,7 @@ import re
 
 from . import common as C
 from . import rulecheck
+from . import removal_gen
 
 META = {
     "title": "Removal and injection rules change exactly what they name",
@@ -31,6 +32,8 @@ def run(ctx):
     proofs_ok = C.proof_gate(ctx, ["Lua/RunCheck.vo", "Lua/KnownClasses.vo"])
     n = 400 if ctx.tier == "quick" else 6000
     rulecheck.run_profile(ctx, "c17", n, classify=None)
+    # the tie of the local theorems' models (Model/Refactor.v, Model/Removal.v, Model/Visit.v) to the Rust rules
+    removal_gen.run_stream(ctx, ctx.prop)
     if not proofs_ok and not ctx.violations:
         failed = [n for n, ok, _ in ctx.obligations if not ok]
         ctx.violation("proof obligation no longer checks: " + "; ".join(failed), {"obligations": failed},
